@@ -3,11 +3,16 @@ package mc
 import (
 	"fmt"
 	"hash/fnv"
+	"os"
 	"reflect"
+	"runtime"
+	"runtime/debug"
 	"sort"
+	"strconv"
 	"strings"
 	"sync"
 	"sync/atomic"
+	"time"
 )
 
 // Config bounds one exploration.
@@ -20,6 +25,13 @@ type Config struct {
 	NoDetCheck    bool    // skip the run-twice determinism check (bodies that cannot be repeated)
 	// RecycleAfter: a worker process is replaced after this many executions (0 = never).
 	RecycleAfter int64
+	// SharedSeen: the worker processes share one table of expanded state keys (a memory-mapped
+	// file) with this many slots; 0 = every worker process keeps its own.
+	SharedSeen uint64
+	// WorkerHeapCap: when > 0, a worker process whose live heap exceeds 60 % of this many bytes
+	// is replaced after the subtree it is working on (code under test that leaks per execution).
+	// Not for harnesses in which a garbage collection is an action of its own: the guard forces one.
+	WorkerHeapCap int64
 	// IsKnown classifies a violation signature as a listed known finding: such executions are
 	// recorded in Result.Known (one per signature), do not stop the search and are not expanded.
 	IsKnown func(sig string) bool
@@ -113,9 +125,51 @@ type explorer struct {
 	nviol    atomic.Int32
 	outcomes *hashSet
 	nontr    *hashSet
-	seen     sync.Map // state key hash -> remaining budget (int)
+	seen     sync.Map  // state key hash -> remaining budget (int)
+	seenExt  *sync.Map // when set, used instead of seen (a worker process keeps one for all its subtrees)
+	seenShm  *shmSet   // when set, used instead of both (shared by all worker processes of the exploration)
 	nseen    atomic.Int64
 }
+
+// OverMemory is set by the memory guard (StartMemoryGuard) when the live heap exceeds the cap.
+var OverMemory atomic.Bool
+
+// StartMemoryGuard watches the heap of this process: above the cap it forces a collection, and
+// if the live heap still exceeds 60 % of the cap it raises OverMemory, which ends the running
+// exploration as a capped (non-exhaustive) run. With setLimit the collector also works harder near the cap instead of
+// letting the heap grow by its usual factor (not in worker processes, whose harnesses may have
+// switched the collector off on purpose).
+func StartMemoryGuard(capBytes int64, setLimit bool) {
+	if setLimit {
+		debug.SetMemoryLimit(capBytes)
+	}
+	go func() {
+		var ms runtime.MemStats
+		for {
+			time.Sleep(2 * time.Second)
+			runtime.ReadMemStats(&ms)
+			if int64(ms.HeapAlloc) < capBytes*6/10 {
+				continue
+			}
+			runtime.GC()
+			runtime.ReadMemStats(&ms)
+			if int64(ms.HeapAlloc) >= capBytes*6/10 {
+				OverMemory.Store(true)
+				return
+			}
+		}
+	}()
+}
+
+func envBytes(name string, def int64) int64 {
+	if v, err := strconv.ParseInt(os.Getenv(name), 10, 64); err == nil && v > 0 {
+		return v
+	}
+	return def
+}
+
+// StartDefaultMemoryGuard: the cap of a check's main process (VERIF_HEAP_CAP bytes, default 20 GiB).
+func StartDefaultMemoryGuard() { StartMemoryGuard(envBytes("VERIF_HEAP_CAP", 20<<30), true) }
 
 func h64(s string) uint64 {
 	h := fnv.New64a()
@@ -127,8 +181,15 @@ func h64(s string) uint64 {
 // least `remaining` budget. Otherwise records it.
 func (e *explorer) seenState(key string, remaining int) bool {
 	k := h64(key)
+	if e.seenShm != nil {
+		return e.seenShm.seen(k, remaining)
+	}
+	seen := &e.seen
+	if e.seenExt != nil {
+		seen = e.seenExt
+	}
 	for {
-		v, loaded := e.seen.LoadOrStore(k, remaining)
+		v, loaded := seen.LoadOrStore(k, remaining)
 		if !loaded {
 			e.nseen.Add(1)
 			return false
@@ -136,7 +197,7 @@ func (e *explorer) seenState(key string, remaining int) bool {
 		if v.(int) >= remaining {
 			return true
 		}
-		if e.seen.CompareAndSwap(k, v, remaining) {
+		if seen.CompareAndSwap(k, v, remaining) {
 			return false
 		}
 	}
@@ -343,6 +404,15 @@ func (e *explorer) worker() {
 		if e.cfg.Deadline > 0 && st.execs%64 == 0 && Wall() > e.cfg.Deadline {
 			e.stop.Store(true)
 			e.timedOut.Store(true)
+		}
+		if st.execs%64 == 0 && OverMemory.Load() {
+			// the process holds too much live memory (code under test that leaks per execution,
+			// or a very large state set): the part ends as a capped run, never as a crash
+			e.stop.Store(true)
+			e.timedOut.Store(true)
+			e.mu.Lock()
+			e.res.Notes["stopped_by_the_memory_cap"] = 1
+			e.mu.Unlock()
 		}
 	}
 }
